@@ -187,9 +187,18 @@ pub struct LintObs {
     pub entropy_draws: u64,
 }
 
+/// Tick budget of the parse phase: every iteration of the parse loop consumes at least one token
+/// or pops a file, so a few times the number of characters is far above any correct run.
 fn default_budget(world: &World) -> u64 {
-    // generous: far above what any correct run needs, low enough to end a spinning loop quickly
-    200_000 + 64 * world.total_bytes() as u64
+    2_000 + 4 * world.total_bytes() as u64
+}
+
+/// Tick budget of the analysis phase (sweeps of the `while changed` loops, summed over the pass
+/// runs of the pipeline): a hard cap that turns oscillation into a caught marker panic. It lies
+/// above the reportable bound (4 * nodes + 16 per pass run), so nothing that is within the
+/// property's bound is ever cut off, and low enough that a spinning loop ends within seconds.
+fn sweep_budget(parser_nodes: usize) -> u64 {
+    128 + 16 * parser_nodes as u64
 }
 
 fn run_lints(cfg: &Cfg) -> Vec<(DiagnosticItem, String)> {
@@ -240,6 +249,9 @@ fn body(spec: LintSpec) -> LintObs {
             }
             let mut items: Vec<(DiagnosticItem, Option<String>)> = perrs.iter().map(|e| (DiagnosticItem::from(e.clone()), None)).collect();
             let nodes2 = if spec.analyse_twice { Some(nodes.clone()) } else { None };
+            if spec.tick_budget == 0 {
+                riscv_analysis::verif::set_budget(sweep_budget(nodes.len()));
+            }
             match Manager::gen_full_cfg(nodes) {
                 Ok(mut cfg) => {
                     let t = riscv_analysis::verif::take_counts();
@@ -261,6 +273,7 @@ fn body(spec: LintSpec) -> LintObs {
                     }
                     // C12 histories: extra pass runs on the finished graph
                     for op in &spec.history {
+                        // take_counts resets the counters, so every extra run has the full budget
                         let _ = riscv_analysis::verif::take_counts();
                         let mut d_after: Vec<(DiagnosticItem, Option<String>)> = Vec::new();
                         match op {
